@@ -19,6 +19,7 @@ structure Core where
   allow : Bool
   proto : Option Nat
   estab : Option Nat
+  pending : Option Nat
   conns : List (Phase × Bool)
   deriving DecidableEq, Repr
 
@@ -26,7 +27,7 @@ def pd (c : Conn) : Phase × Bool := (c.phase, c.disconnected)
 
 def core (s : Sess) : Core :=
   { st := s.st, retry := s.tm.retry.isSome, idleHold := s.tm.idleHold.isSome, allow := s.allowAuto,
-    proto := s.proto, estab := s.estab, conns := s.conns.map pd }
+    proto := s.proto, estab := s.estab, pending := s.pending, conns := s.conns.map pd }
 
 namespace Core
 
@@ -40,6 +41,7 @@ def withSt (c : Core) (v : St) : Core := { c with st := v }
 def withAllow (c : Core) (v : Bool) : Core := { c with allow := v }
 def withProto (c : Core) (v : Option Nat) : Core := { c with proto := v }
 def withEstab (c : Core) (v : Option Nat) : Core := { c with estab := v }
+def withPending (c : Core) (v : Option Nat) : Core := { c with pending := v }
 def setPhase (c : Core) (i : Nat) (p : Phase) : Core := { c with conns := c.conns.set i (p, (c.conn i).2) }
 
 def closeOn (c : Core) (i : Nat) : Core :=
@@ -52,8 +54,15 @@ def closeConn (c : Core) : Core :=
 
 def errorClose (c : Core) : Core := ((c.withTm false true).closeConn).withSt .idle
 
+def abortPending (c : Core) : Core :=
+  match c.pending with
+  | none => c
+  | some j => if (c.conn j).1 = .connecting then (c.withPending none).setPhase j .closed else c.withPending none
+
 def connectTcp (c : Core) : Core :=
-  if c.st ≠ .established then { c with conns := c.conns ++ [(.connecting, false)] } else c
+  if c.abortPending.st ≠ .established then
+    { c.abortPending with conns := c.abortPending.conns ++ [(.connecting, false)], pending := some c.abortPending.conns.length }
+  else c.abortPending
 
 def autoStart (c : Core) (idle : Bool) : Core :=
   if c.st = .idle then
@@ -85,14 +94,15 @@ def manualStart (c : Core) : Core :=
   | .idle => (((c.withAllow true).setRetry true).withSt .connect).connectTcp
   | _ => c
 
-def manualStop (c : Core) : Core := (((c.withTm false false).closeConn).withAllow false).withSt .idle
+def manualStop (c : Core) : Core := ((((c.withTm false false).closeConn).withAllow false).withSt .idle).abortPending
 
 /-- connectTCP succeeded; `sent` = BGP.send_open went through -/
 def connOk (c : Core) (i : Nat) (sent : Bool) : Core :=
   if sent then ((((((c.setPhase i .connected).withProto (some i)).withSt .connect).withEstab (some i)).setRetry false).setIdleHold false).withSt .openSent
   else (((((c.setPhase i .connected).withProto (some i)).withSt .connect).withEstab (some i)).setRetry false).setIdleHold false
 
-def connFail (c : Core) (i : Nat) : Core := (c.setPhase i .closed).connectionFailed
+def connFail (c : Core) (i : Nat) : Core :=
+  if c.pending = some i then ((c.withPending none).setPhase i .closed).connectionFailed else c.setPhase i .closed
 
 def connLost (c : Core) (i : Nat) : Core :=
   if (c.conn i).2 then (c.setPhase i .closed).connectionClosed (some i) else (c.setPhase i .closed).connectionFailed
@@ -198,6 +208,7 @@ theorem core_setConn_same (s : Sess) (i : Nat) (c : Conn) (h : pd c = pd (s.conn
 @[simp] theorem core_withAllow (s : Sess) (v : Bool) : core (s.withAllow v) = (core s).withAllow v := rfl
 @[simp] theorem core_withProto (s : Sess) (v : Option Nat) : core (s.withProto v) = (core s).withProto v := rfl
 @[simp] theorem core_withEstab (s : Sess) (v : Option Nat) : core (s.withEstab v) = (core s).withEstab v := rfl
+@[simp] theorem core_withPending (s : Sess) (v : Option Nat) : core (s.withPending v) = (core s).withPending v := rfl
 
 @[simp] theorem core_setSt (s : Sess) (v : St) : core (s.setSt v) = (core s).withSt v := by
   unfold setSt; split <;> rfl
@@ -269,15 +280,30 @@ theorem core_errorClose (s : Sess) : core s.errorClose = (core s).errorClose := 
   unfold errorClose Core.errorClose
   simp only [core_setSt, core_incRetryCounter, core_closeConn, core_withTm, Option.isSome_none, Option.isSome_some]
 
+theorem core_abortPending (s : Sess) : core s.abortPending = (core s).abortPending := by
+  unfold abortPending Core.abortPending
+  have hp : (core s).pending = s.pending := rfl
+  rw [hp]
+  cases s.pending with
+  | none => rfl
+  | some j =>
+    simp only
+    have : ((core s).conn j).1 = (s.conn j).phase := by rw [core_conn]; rfl
+    rw [this]
+    split
+    · rw [core_setPhase, core_withPending]
+    · rw [core_withPending]
+
 theorem core_connectTcp (s : Sess) : core s.connectTcp = (core s).connectTcp := by
   unfold connectTcp Core.connectTcp
-  have : (core s).st = s.st := rfl
-  rw [this]
+  have h1 : (core s).abortPending.st = s.abortPending.st := by rw [← core_abortPending]; rfl
+  rw [h1]
   split
-  · simp only [core_emit]
-    unfold core withConns
+  · simp only [core_withPending, core_emit]
+    rw [← core_abortPending]
+    unfold core withConns Core.withPending
     simp [pd]
-  · rfl
+  · exact core_abortPending s
 
 theorem core_autoStart (s : Sess) (b : Bool) : core (s.autoStart b) = (core s).autoStart b := by
   unfold autoStart Core.autoStart
@@ -328,7 +354,7 @@ theorem core_manualStop (s : Sess) : core s.manualStop = (core s).manualStop := 
   unfold manualStop Core.manualStop
   have : core (if s.st = .established then s.sendNotification C.errCease 0 [] else s) = core s := by
     split <;> simp
-  simp only [core_emit, core_setSt, core_withAllow, core_withRetryCounter, core_closeConn, core_withTm, this]
+  simp only [core_emit, core_abortPending, core_setSt, core_withAllow, core_withRetryCounter, core_closeConn, core_withTm, this]
   rfl
 
 theorem core_connOk (s : Sess) (i : Nat) :
@@ -353,7 +379,11 @@ theorem core_connOk (s : Sess) (i : Nat) :
 
 theorem core_connFail (s : Sess) (i : Nat) : core (s.connFail i) = (core s).connFail i := by
   unfold connFail Core.connFail
-  rw [core_connectionFailed, core_emit, core_setPhase]
+  have hp : (core s).pending = s.pending := rfl
+  rw [hp]
+  split
+  · rw [core_connectionFailed, core_emit, core_setPhase, core_withPending]
+  · rw [core_setPhase]
 
 theorem core_connLost (s : Sess) (i : Nat) : core (s.connLost i) = (core s).connLost i := by
   unfold connLost Core.connLost
